@@ -99,7 +99,30 @@ fn codec_case(declared: u32, slen: u64, default_codec: bool) -> Option<String> {
         _ => None,
     }
 }
+/// write_message then read_message returns the message, for payload sizes at and around k * 64 KiB, and the NEXT frame on the
+/// same stream is still readable (C20 round trip through the framed codec)
+fn roundtrip_case(msg_len: usize) -> Option<String> {
+    let m = Message::Error { code: 9, message: "e".repeat(msg_len) };
+    let mut wire = vec![];
+    let mut c = Codec::new();
+    if c.write_message(&mut wire, &m).is_err() { return None; }
+    let payload = wire.len().saturating_sub(12);
+    if c.write_message(&mut wire, &Message::Ping { seq: 7 }).is_err() { return None; }
+    let mut cur = Cursor::new(&wire);
+    let mut rd = Codec::new();
+    match rd.read_message(&mut cur) {
+        Ok(Message::Error { code: 9, message }) if message.len() == msg_len => {}
+        Ok(_) => return Some(format!("a frame with a {payload}-byte payload decodes to a different message")),
+        Err(e) => return Some(format!("a frame that write_message produced ({payload}-byte payload) is rejected by read_message: {e}")),
+    }
+    match rd.read_message(&mut cur) { Ok(Message::Ping { seq: 7 }) => None, o => Some(format!("after a {payload}-byte frame the next frame on the stream is not readable: {:?}", o.map(|_| "another message").map_err(|e| e.to_string()))) }
+}
 pub fn search_codec() -> i32 {
+    // string length such that the bincode payload (4 + 4 + 8 + n bytes) is exactly k * 65536, and its neighbours
+    for k in [1usize, 2, 3, 16] { for d in [-1i64, 0, 1] {
+        let n = (k * 65536) as i64 - 16 + d;
+        if let Some(what) = roundtrip_case(n as usize) { println!("WITNESS {{\"kind\":\"codec-rt\",\"n\":{n},\"what\":\"{}\"}}", what.replace('"', "'")); return 1; }
+    } }
     for &declared in &[32u32, 4000, 8192, 100_000, MAX] {
         for &slen in &[1u64, 64 << 20, 1 << 40, u64::MAX / 2, u64::MAX] {
             for dc in [false, true] {
@@ -111,6 +134,9 @@ pub fn search_codec() -> i32 {
         }
     }
     0
+}
+pub fn run_codec_rt(w: &str) -> i32 {
+    match roundtrip_case(json_u64(w, "n").unwrap_or(0) as usize) { Some(what) => { println!("REPRODUCED: {what}"); 1 } None => { println!("not reproduced"); 0 } }
 }
 pub fn run_codec(w: &str) -> i32 {
     match codec_case(json_u64(w, "declared").unwrap_or(32) as u32, json_u64(w, "slen").unwrap_or(1), json_u64(w, "dc").unwrap_or(0) == 1) {
